@@ -277,7 +277,7 @@ func c19(c *Check) {
 	}
 	c.Req(okParse, "C19/decimal-sequence-parsed-back", funcName(ih), ih.Pos(), "ParseUint(last,10,64)", "iterateHashes no longer parses the sequence with base 10 / 64 bits")
 
-	c.Rule("C19/reader-tokenisation", "readers that split keys on '/' do not range over families with binary components (shared with C13)", 4)
+	c.Rule("C19/reader-tokenisation", "readers that split keys on '/' do not range over families with binary components (shared with C13)", 2)
 	fams := map[string][]*StoreWrite{}
 	for _, w := range c.P.StoreWrites() {
 		if w.Op == "Set" {
